@@ -144,7 +144,9 @@ def gen_case(rng, i):
               "unc_dx": float([1.0, 0.5, 2.0, 3.7][rng.integers(4)]) if ek == "uncertainty" else 1.0,
               "l1kind": lk, "L1": None if lk == "none" else (float(np.sum(Xmid[0])) if lk == "scalar" else np.sum(Xmid, axis=1)),
               "l2_eps": float(10 ** rng.uniform(-4, -2)), "l1_eps": float(10 ** rng.uniform(-3, -1.5)),
-              "solver": ["default", "clarabel"][rng.integers(2)]})
+              "solver": ["default", "clarabel"][rng.integers(2)],
+              # the batch size is a performance setting of the call (several samples stacked into one conic problem)
+              "bs": [1, 1, 2, "full"][rng.integers(4)]})
     return s
 
 
@@ -206,6 +208,9 @@ def chk_case(inp, c):
     kw = dict(solver=cp.CLARABEL) if tight else {}
     tau_e = 2e-3 if tight else 2e-2
     args = dict(l2_eps=inp["l2_eps"], l1_eps=inp["l1_eps"])
+    if inp.get("bs", 1) != 1 and N > 1:
+        args["batch_size"] = inp["bs"]
+        c.cell("batch=" + str(inp["bs"]))
     if inp["L1"] is not None:
         args["L1"] = inp["L1"]
     if ek == "explicit":
